@@ -20,6 +20,7 @@ import math
 import random
 import re
 import shutil
+import time
 import warnings
 from fractions import Fraction
 
@@ -293,6 +294,11 @@ def calendar_cases(rng, n):
     return out
 
 
+def short(arr):
+    """small samples verbatim; big ones by size and head (the replay regenerates them from generator parameters)"""
+    return arr.tolist() if arr.size <= 64 else {"size": int(arr.size), "head": arr[:6].tolist()}
+
+
 def oracle(t, records=None):
     """Judge the records of build_plot_data(t) directly.  Returns None or a failure dict."""
     try:
@@ -347,7 +353,7 @@ def oracle(t, records=None):
                     if s.get(k) is None or not close(s[k], w):
                         return {"stage": f"summary field {k} is not the statistic its name states", "index": i,
                                 "metric": name, "got": None if s.get(k) is None else float(s[k]), "want": float(w),
-                                "sample": arr.tolist()}
+                                "sample": short(arr)}
                 qs = []
                 for k in s:
                     p = label_prob(k)
@@ -357,7 +363,7 @@ def oracle(t, records=None):
                     if s[k] is None or not close(s[k], w):
                         return {"stage": f"summary field {k} is not the {100 * p:g}th percentile", "index": i,
                                 "metric": name, "got": None if s[k] is None else float(s[k]), "want": float(w),
-                                "sample": arr.tolist(),
+                                "sample": short(arr),
                                 "all_quantile_fields": {q: (None if s[q] is None else float(s[q])) for q in s if label_prob(q) is not None},
                                 "monotone": all(a <= b for a, b in zip(*[[float(s[q]) for q in s if label_prob(q) is not None and s[q] is not None][i:] for i in (0, 1)]))}
                     qs.append((p, float(s[k]), k))
@@ -367,7 +373,7 @@ def oracle(t, records=None):
                 for (p1, v1, k1), (p2, v2, k2) in zip(qs, qs[1:]):
                     if v1 > v2 + 1e-12 * (1 + abs(v2)):
                         return {"stage": "quantile summaries not monotone", "index": i, "metric": name,
-                                "detail": f"{k1}={v1} > {k2}={v2}", "sample": arr.tolist()}
+                                "detail": f"{k1}={v1} > {k2}={v2}", "sample": short(arr)}
                 if not (s["min"] <= qs[0][1] + 1e-12 and qs[-1][1] <= s["max"] + 1e-12):
                     return {"stage": "quantiles outside [min, max]", "index": i, "metric": name}
             else:
@@ -774,6 +780,92 @@ def cache_probe(ctx, spec=None):
     return bad
 
 
+# ------------------------------------------------------------------------------ large stream (family Q)
+def make_large(kind, **pr):
+    """big inputs by generator parameters (so that replays need no 10**5-element literals)"""
+    import calendar
+
+    from bermuda import CumulativeCell, Metadata, Triangle
+
+    def me(k):
+        y, m = divmod(k, 12)
+        return D(y, m + 1, calendar.monthrange(y, m + 1)[1])
+
+    rng = np.random.default_rng(pr.get("seed", 1))
+    if kind == "samples":            # sample arrays of n items, incl. reversed / strided / Fortran views
+        n = pr["n"]
+        cells = []
+        for y in (2019, 2020):
+            for lag in (0, 1, 2):
+                paid = rng.gamma(2.0, 500.0 * (lag + 1), 2 * n)[::2]
+                rep = np.asfortranarray(rng.normal(2000.0 * (lag + 1), 300.0, n))[::-1]
+                cells.append(CumulativeCell(period_start=D(y, 1, 1), period_end=D(y, 12, 31), evaluation_date=D(y + lag, 12, 31),
+                                            values={"paid_loss": paid, "reported_loss": rep, "earned_premium": 10000.0,
+                                                    "incurred_loss": rng.integers(0, 10**6, n).astype(np.int64)}))
+        return Triangle(cells)
+    if kind == "long":               # rows of > 65 cells, > 64 evaluation dates, n_slices x periods x lags cells, big integers
+        cells = []
+        for s_ in range(pr["n_slices"]):
+            m = Metadata(details={"id": 2**53 + 1 + s_})
+            for p_ in range(pr["periods"]):
+                k0 = 12 * 2000 + 12 * p_
+                for lag in range(pr["lags"]):
+                    v = (2**53 + 1 + lag) if (s_ == 0 and p_ == 0) else 1000 * (lag + 1) + p_ + s_
+                    cells.append(CumulativeCell(period_start=D(2000 + p_, 1, 1), period_end=D(2000 + p_, 12, 31), evaluation_date=me(k0 + 11 + lag),
+                                                values={"paid_loss": v, "reported_loss": 1.5 * v, "earned_premium": 50000 + p_}, metadata=m))
+        order = rng.permutation(len(cells))
+        return Triangle([cells[i] for i in order])
+    if kind == "seam":               # equal-metadata cells created before and after > n distinct Metadata were seen by Cell
+        def cell(m, lag, k):
+            return CumulativeCell(period_start=D(2021, 1, 1), period_end=D(2021, 12, 31), evaluation_date=D(2021 + lag, 12, 31),
+                                  values={"paid_loss": 100.0 * k * (lag + 1), "reported_loss": 150 * k * (lag + 2), "earned_premium": 1000}, metadata=m)
+
+        mk = [lambda: Metadata(country="US", details={"lob": "auto", "n": 7}), lambda: Metadata(country="DE", loss_details={"cov": "x"})]
+        first = [cell(f(), 0, k + 1) for k, f in enumerate(mk)]
+        filler = [cell(Metadata(details={"filler": pr.get("offset", 0) + i}), 0, 1) for i in range(pr["n"])]
+        later = [cell(f(), lag, k + 1) for k, f in enumerate(mk) for lag in (1, 2)]
+        del filler
+        return Triangle(first + later)
+    raise ValueError(kind)
+
+
+def large_stream(ctx):
+    """Family Q, judged by the direct oracle only (no Coq literals: the theorems -- quantile monotonicity, labels,
+    neighbours -- are size independent; it is the correspondence that samples).  An early small case is re-checked after
+    the large work."""
+    quick = ctx.quick
+    plan = [("samples", {"n": n, "seed": ctx.seed}) for n in ([4096, 4097, 5000, 10000] if quick else [4096, 4097, 5000, 10000, 20000, 100000])]
+    plan += [("seam", {"n": 2100 if quick else 4300, "offset": 0}),
+             ("long", {"n_slices": 5, "periods": 3, "lags": 21, "seed": ctx.seed}),
+             ("long", {"n_slices": 1, "periods": 1, "lags": 70, "seed": ctx.seed})]
+    if not quick:
+        plan += [("long", {"n_slices": 6, "periods": 6, "lags": 31, "seed": ctx.seed}), ("seam", {"n": 2100, "offset": 10**6})]
+    t0 = time.time()
+    fails = []
+    for kind, pr in plan:
+        with warnings.catch_warnings():
+            warnings.simplefilter("ignore")
+            t = make_large(kind, **pr)
+        r = oracle(t)
+        ctx.count(evaluations=len(t), traces=1)
+        ctx.hist(f"large:{kind}-{'-'.join(str(v) for k, v in pr.items() if k != 'seed')}")
+        if r is not None:
+            fails.append((kind, pr, r))
+    # an early small case rebuilt after the large work (not served from build_plot_data's cache: premium shifted)
+    from bermuda import Triangle
+
+    t_early = battery()[1][0]
+    rebuilt = Triangle([c.replace(values={**c.values, "earned_premium": c.values["earned_premium"] + 1 + ctx.seed}) for c in spec_tri(tri_spec(t_early)).cells])
+    r = oracle(rebuilt)
+    if r is not None:
+        fails.append(("early-recheck", {}, r))
+    ctx.log(f"large stream: {len(plan)} big cases + early re-check, {len(fails)} failures, {time.time() - t0:.1f}s")
+    for kind, pr, r in fails[:4]:
+        ctx.violation("impl-violation", f"large stream ({kind} {pr}): plot data not faithful: {json.dumps(r, default=str)[:700]}",
+                      {"large": {"kind": kind, "params": pr}, "failure": r}, found_input=True)
+    return fails
+
+
 # ------------------------------------------------------------------------------ run
 def run(ctx):
     from translate import t_plot
@@ -793,6 +885,9 @@ def run(ctx):
         "floats are compared with 1e-9 relative tolerance against exact rational arithmetic",
         "dev_lag is taken from cell.dev_lag() (date arithmetic is C12); tooltip / unit / last_lag / resolution entries "
         "of the records are not modelled",
+        "large stream (family Q: 4096-10**5-sample arrays incl. views, rows of 70 cells, 240+-cell triangles, ints beyond 2**53, "
+        "> 2100 distinct Metadata between equal-metadata cells, early case re-checked afterwards) is judged by the direct oracle "
+        "only -- no Coq literals: the theorems are size independent, it is the correspondence that samples",
         "NOT DECIDED: sd is compared numerically with np.std only; validity of Vega-Lite specifications and 'one facet "
         "per slice' are behaviour of Altair -- only monitored: every plot function with its default and each non-default "
         "option at boundary values (n_lines = num_samples, num_samples-1, 1; every uncertainty_type) on 1-3-slice "
@@ -868,6 +963,7 @@ def run(ctx):
                       {"mismatches": mism[:3]}, found_input=False)
     # 5. monitor
     vega_monitor(ctx)
+    large_stream(ctx)
     hf = hardening_checks(ctx)
     ctx.log(f"hardening checks (K/E/L/H): {len(hf)} failures")
 
@@ -904,6 +1000,27 @@ def shrink(t):
 
 
 def replay(ctx, data):
+    if data.get("large"):
+        kind, pr = data["large"]["kind"], data["large"]["params"]
+        if kind == "early-recheck":
+            print("the early re-check needs the whole large stream; re-running it")
+            class _L:
+                quick, seed = True, 1
+                def count(self, *a, **k): pass
+                def hist(self, *a, **k): pass
+                def log(self, *a): print(*a)
+                def violation(self, kind, what, *a, **k): print("FAILS:", what[:900])
+            return 1 if large_stream(_L()) else 0
+        with warnings.catch_warnings():
+            warnings.simplefilter("ignore")
+            t = make_large(kind, **pr)
+        print(f"make_large({kind!r}, **{pr}): {len(t)} cells, {len(t.slices)} slice(s), {t.num_samples} sample(s)")
+        r = oracle(t)
+        if r is None:
+            print("build_plot_data: one record per cell in order, metrics and labelled statistics as stated: OK")
+            return 0
+        print("plot data NOT faithful:", json.dumps(r, default=str)[:1500])
+        return 1
     if data.get("remove_empties_probe"):
         import bermuda.plot as bp
 
